@@ -676,6 +676,10 @@ def generate(u, repo=None):
                 text = "#[verifier::external_body] // contract assumed in this unit (see DESIGN: proved by the Kani pair)\n" + text
             if it.get("imported_from"):
                 text = "#[verifier::external_body] // contract proved in unit %s\n" % it["imported_from"] + text
+            elif not it["opts"].get("external_body") and _LOOP_RE.search(_strip_tokens(cut["body"])):
+                # loop bodies see what was established before the loop about variables the loop does not assign: a local
+                # hoisted out of a loop (`let w = self.get_w();` before `for ..`) must not need a new invariant clause
+                text = "#[verifier::loop_isolation(false)]\n" + text
         else:
             text = cut["text"]
             # R0: drop derives/attrs is implicit (we cut from the keyword); pub(crate) kept
